@@ -40,9 +40,12 @@ func genLifetimePlan(seed uint64, tier string) *Plan {
 		c.EnvDialogTO = strconv.Itoa(timeout*3 + 7) // the YAML value wins
 	}
 	c.Knobs = map[string]int{"timeout": timeout, "stopResolver": 1}
+	// now and then a datagram write of the proxy fails: that message is lost, the pins stay as they are
+	c.Faults.UDPWriteErrPct = g.pick2(0, 0, 0, 4)
 	p.Cfg = *c
 	if g.chance(30) {
 		p.Variant = "purge"
+		p.Cfg.Faults.UDPWriteErrPct = 0 // the purge bound is stated in terms of traffic the proxy dispatched
 		genPurgeOps(g, p, timeout)
 		return p
 	}
@@ -121,10 +124,20 @@ func genLifetimePlan(seed uint64, tier string) *Plan {
 			// either way the answer carries the dialog and establishes the pin anew
 			p.Ops = append(p.Ops, Op{Kind: "reinvite", ID: id + ".ri", S: map[string]string{"dialog": id}, I: map[string]int{"status": g.pick2(200, 488, 491, 603, 302), "expires": g.pick2(-1, -1, 0, 2*timeout)}})
 			p.Ops = append(p.Ops, Op{Kind: "probe-now", ID: id + ".pr", S: map[string]string{"dialog": id}})
+			if g.chance(60) {
+				// the answer to the re-INVITE starts a new lifetime: probes around ITS end (past the first answer's)
+				for k, dur := range []int64{-int64(T) / int64(2+g.intn(6)), int64(time.Duration(1+g.intn(900)) * time.Millisecond)} {
+					p.Ops = append(p.Ops, Op{Kind: "probe-at", ID: fmt.Sprintf("%s.rq%d", id, k), S: map[string]string{"dialog": id}, I: map[string]int{}, Dur: dur})
+				}
+			}
 		}
 		if g.chance(40) {
 			// terminate, then probe again
 			top := Op{Kind: "terminate", ID: id + ".bye", S: map[string]string{"dialog": id, "how": g.pick("BYE", "BYE", "NOTIFY-terminated", "NOTIFY-active", "NOTIFY-terminated-reason")}, I: map[string]int{"status": g.pick2(200, 200, 481, 500, 603)}}
+			if g.chance(30) {
+				// the backend is slow to answer the BYE: the caller retransmits it before any answer was seen
+				top.I["retransmitBeforeAnswer"] = 1 + g.intn(2)
+			}
 			p.Ops = append(p.Ops, top)
 			p.Ops = append(p.Ops, Op{Kind: "probe-now", ID: id + ".pt", S: map[string]string{"dialog": id}})
 		}
@@ -137,6 +150,7 @@ func genLifetimePlan(seed uint64, tier string) *Plan {
 		// the new pins are made while a purge of the old ones is due
 		aimed := g.chance(70)
 		if aimed {
+			p.Cfg.Faults.UDPWriteErrPct = 0 // exact instants
 			// aimed at the purge instant: a call set up after a quiet period (its INVITE triggers a purge, so the next
 			// one falls due exactly one dialog timeout later) is taken up again at that very instant
 			p.Variant = "repin"
@@ -437,6 +451,38 @@ func execLifetime(t *testing.T, p *Plan) *Result {
 				default:
 					o.method = "NOTIFY"
 					o.extra = []sipwire.Header{{Name: "Subscription-State", Value: "terminated;reason=timeout"}}
+				}
+				if nrt := op.I["retransmitBeforeAnswer"]; nrt > 0 && how == "BYE" && w.K.Elapsed()+time.Duration(nrt)*500*time.Millisecond+time.Second < pm.t0+pm.life {
+					// "dissolved early when the backend ANSWERS a BYE": until then the BYE's retransmissions belong to
+					// the pinned backend like any request of the dialog. The backend answers 3 s late.
+					respDelayUs[op.ID] = 3000000
+					data := ids.request(o)
+					d.sendRequest(ids.ua, pm.op.Listen, data, op.ID)
+					for k := 0; k < nrt; k++ {
+						w.K.Advance(500 * time.Millisecond)
+						s := d.uaSocket(ids.ua)
+						s.SendExact(d.listenerAddr(pm.op.Listen), data, 100*time.Microsecond)
+					}
+					w.K.Settle(10 * time.Second)
+					noteTraffic()
+					w.Stats["judged:C15"]++
+					w.stat("probe:bye-retransmitted-before-its-answer")
+					copies := d.reached[op.ID]
+					if len(copies) == nrt+1 {
+						for _, b := range copies {
+							if b != pm.backend {
+								v("pin-dissolved-before-the-bye-was-answered", op.ID, "", "dialog %s is pinned to %s; its BYE was sent %d times before the backend answered, the copies reached %v", pm.op.ID, pm.backend, nrt+1, copies)
+								break
+							}
+						}
+					}
+					if len(copies) == 0 || copies[0] != pm.backend {
+						pm.dontcare = true
+						continue
+					}
+					pm.terminated = true
+					w.stat("terminated:" + how)
+					continue
 				}
 				d.sendRequest(ids.ua, pm.op.Listen, ids.request(o), op.ID)
 				w.K.Settle(10 * time.Second)
